@@ -7,20 +7,23 @@ def unsafe_decode(string):
 
 def decode(string):
   validate_all_printable(string)
-  return unsafe_decode(string)
+  return _parse_json(string)
 
 def validate_encoded(string):
   # both regex and JSON parse are necessary,
   # because string can be invalid JSON and
   # JSON can contain forbidden chars (non-printable)
   validate_all_printable(string)
+  _parse_json(string)
+
+def _parse_json(string):
   try:
-    json.loads(string)
+    return json.loads(string)
   except Exception as err:
-    raise Exception(
-    "{} is not a valid JSON string\n".format(repr(string))+
-    "json.loads raised a {} exception\n".format(err.__class__.__name__)+
-    "error message: {}").format(str(err)) from err
+    raise gfapy.FormatError(
+      "{} is not a valid JSON string\n".format(repr(string))+
+      "json.loads raised a {} exception\n".format(err.__class__.__name__)+
+      "error message: {}".format(str(err))) from err
 
 def validate_decoded(obj):
   if isinstance(obj, gfapy.FieldArray):
